@@ -245,11 +245,12 @@ Proof.
     + rewrite S. apply Nat.leb_le in Hl.
       set (out := spec_packet (g_addr g) (enc_dest false id a) 0 body ++ skipn (10 + length body) buf).
       assert (Hlen : length out = length buf) by (apply spec_packet_out_length; exact Hl).
-      assert (H9 : sub out 9 3 = [0; code; cc]) by reflexivity.
+      assert (H9 : nth 9 out 0 = 0) by reflexivity.
+      assert (H10 : sub out 10 2 = [code; cc]) by reflexivity.
       assert (Hp : sub out 12 (10 + length body - 13) = fields).
       { rewrite Hn. replace (13 + length fields - 13)%nat with (length fields) by lia.
         exact (spec_packet_body (g_addr g) (enc_dest false id a) 0 [0; code; cc] fields _). }
-      rewrite H9, Hp, Hlen, !list_eqb_refl.
+      rewrite H9, H10, Hp, Hlen, !list_eqb_refl.
       replace (10 <=? 10 + length body)%nat with true by (symmetry; apply Nat.leb_le; lia).
       replace (10 + length body <=? length buf)%nat with true by (symmetry; apply Nat.leb_le; lia).
       cbn [andb]. apply good_of. apply orb_true_r.
@@ -279,7 +280,8 @@ Lemma c08_core ovf g c h id a ls buf :
   good (match spec_message h id a ls 0, snd (step ovf c (OEncode h id a ls buf)) with
         | Some (mt, body), XEnc (Some n) out =>
             sv_of ((10 <=? n)%nat && (n <=? length out)%nat && list_eqb (sub out 8 (n - 9)) (mt :: body)) id
-        | Some (mt, body), XEnc None out => sv_triv
+        | Some (mt, body), XEnc None out =>
+            if fits_frame body && (10 + length body <=? length buf)%nat then sv_of false id else sv_triv
         | Some (mt, body), _ => sv_triv
         | None, XEnc None out => sv_of (list_eqb out buf) id
         | None, _ => sv_of false id
@@ -289,7 +291,9 @@ Proof.
   pose proof (step_encode_obs ovf g c h id a ls buf Hg Hc Hok) as S. cbv zeta in S.
   rewrite Ew, HM in S.
   destruct (spec_message h id a ls 0) as [[mt body]|].
-  - destruct (259 <? 10 + length body)%nat; [rewrite S; apply good_triv|].
+  - destruct (Nat.ltb_spec 259 (10 + length body)) as [Hov|Hov].
+    { rewrite S. unfold fits_frame.
+      replace (length body + 10 <=? 259)%nat with false by (symmetry; apply Nat.leb_gt; lia). apply good_triv. }
     destruct (10 + length body <=? length buf)%nat eqn:Hl.
     + rewrite S. apply Nat.leb_le in Hl. apply good_of.
       rewrite spec_packet_out_length by exact Hl.
@@ -299,7 +303,8 @@ Proof.
       replace (10 + length body <=? length buf)%nat with true by (symmetry; apply Nat.leb_le; lia).
       reflexivity.
     + destruct (snd (step ovf c (OEncode h id a ls buf))) as [?| | | |[?|] ?| | | |]; try apply good_triv.
-      exfalso. eapply S. reflexivity.
+      * exfalso. eapply S. reflexivity.
+      * rewrite andb_false_r. apply good_triv.
   - rewrite S. apply good_of, list_eqb_refl.
 Qed.
 
@@ -505,6 +510,3 @@ Qed.
 Theorem c04_holds : holds_on_model 4.
 Proof. apply holds_from_step. intros ovf g s c o Hg Hc Ho Hw. cbn [oracle_of obs3_of fst]. eapply c04_step_ok; eassumption. Qed.
 
-(* ---------- C03, in the same form ---------- *)
-Theorem c03_holds_hist : holds_on_model 3.
-Proof. apply holds_from_step. intros ovf g s c o _ _ _ _. cbn [oracle_of obs3_of fst]. unfold good. rewrite c03_holds. reflexivity. Qed.
